@@ -123,11 +123,11 @@ func concOps() []concOp {
 			sv := reflect.New(st).Elem()
 			sv.Field(0).SetInt(n)
 			// (also a count of decimals larger than any asked for before)
-			src := fmt.Sprintf("mail%d@host%d.example @w%d {{ u.k%d }} {{ s.f }} {{ {zz%d: 1, aa: 2}.aa }} {{ 7.decimal(\",\", %d) }}", n, n, n, n, n, 17+n)
-			want := fmt.Sprintf("mail%d@host%d.example @w%d %d %d 2 7,%s", n, n, n, n, n, strings.Repeat("0", int(17+n)))
+			src := fmt.Sprintf("mail%d@host%d.example @w%d {{ u.k%d }} {{ s.f }} {{ {zz%d: 1, aa: 2}.aa }} {{ 7.decimal(\",\", %d) }}", n, n, n, n, n, 17+n%3000)
+			want := fmt.Sprintf("mail%d@host%d.example @w%d %d %d 2 7,%s", n, n, n, n, n, strings.Repeat("0", int(17+n%3000)))
 			// a dump nested deeper than any before it (its text is not compared: no statement fixes it)
 			var deep any = n
-			for k := int64(0); k < 3+n/6 && k < 400; k++ {
+			for k := int64(0); k < 3+n/6 && k < 48; k++ {
 				if k%2 == 0 {
 					deep = []any{deep}
 				} else {
@@ -135,7 +135,7 @@ func concOps() []concOp {
 				}
 			}
 			if dout, derr := textwire.EvaluateString("@dump(deep)", map[string]any{"deep": deep}); derr != nil || dout == "" {
-				return fmt.Sprintf("fresh names: @dump of a value nested %d deep gave (%d bytes, %v)", 3+n/6, len(dout), derr)
+				return fmt.Sprintf("fresh names: @dump of a value nested %d deep gave (%d bytes, %v)", min(3+n/6, 48), len(dout), derr)
 			}
 			out, err := textwire.EvaluateString(src, map[string]any{"u": map[string]any{fmt.Sprintf("K%d", n): n}, "s": sv.Interface()})
 			if err != nil || out != want {
@@ -243,8 +243,8 @@ func init() {
 		Level:      "exploration",
 		Race:       true,
 		MaxWorkers: 6,
-		CPUBudget:  120,
-		Rule: "rounds of G in {2, 8, 32(,128)} goroutines x GOMAXPROCS in {1, 2, 16}, every goroutine issuing 200 operations drawn (seeded) from 26 concrete calls on one loaded tree - String of a layout+component-in-loop page, a loop page, an object/dump page, two pages failing at run time, a missing name, a shuffle() page; Response ok/failing/missing (error page through the string API); EvaluateString ok/failing; EvaluateFile; loops that fail in a later pass after producing output; renders without any data that assign names at top level (as integer, string, boolean, object) next to one that reads the name and must fail - with goroutine-specific data otherwise; a registered custom function called from inside the templates yields or sleeps 50us on a seeded schedule; every round also loads a tree without layouts and components right after a tree in another directory was used and makes its very first renders (failing ones included) concurrent. " +
+		CPUBudget:  600,
+		Rule: "rounds of G in {2, 8, 32(,128)} goroutines x GOMAXPROCS in {1, 2, 16}, every goroutine issuing 200 (80 when G = 128) operations drawn (seeded) from 26 concrete calls on one loaded tree - String of a layout+component-in-loop page, a loop page, an object/dump page, two pages failing at run time, a missing name, a shuffle() page; Response ok/failing/missing (error page through the string API); EvaluateString ok/failing; EvaluateFile; loops that fail in a later pass after producing output; renders without any data that assign names at top level (as integer, string, boolean, object) next to one that reads the name and must fail - with goroutine-specific data otherwise; a registered custom function called from inside the templates yields or sleeps 50us on a seeded schedule; every round also loads a tree without layouts and components right after a tree in another directory was used and makes its very first renders (failing ones included) concurrent. " +
 			"Oracles: the harness is built with the Go race detector (halt_on_error=0, log per process); after the rounds the log is parsed and every report with a frame inside the repository is a violation (de-duplicated by the pair of innermost repository frames); the recorded history (goroutine, operation, logical call/return stamps from one atomic counter, result) is checked offline against the stateless model: every result must equal what the same operation returned alone before the round (shuffle as a multiset). Evidence counts operations that overlapped an operation of a different kind. round 8: float postfix page, inline pages of several KiB, component sources through the string and file API; round 9: non-ASCII string built-ins, data-caused failures, big-input bursts; distinct_nontrivial = distinct (round, goroutine, operation) triples that overlapped another kind",
 		Assumptions: []string{
 			"only interleavings the scheduler produced; the race detector sees races between accesses that actually executed",
@@ -279,7 +279,7 @@ func init() {
 			rounds := 2
 			cfgs := configs
 			if tier == core.Thorough {
-				rounds = 20
+				rounds = 16
 				cfgs = append(append([]struct{ g, procs int }{}, configs...), struct{ g, procs int }{128, 16}, struct{ g, procs int }{128, 4})
 			}
 			return []core.Section{{Name: "rounds", N: len(cfgs) * rounds, Run: func(c *core.Ctx, i int) {
@@ -355,7 +355,11 @@ func init() {
 						rng := core.NewRng("C15", c.Seed, i, g)
 						data := dataOf(g)
 						<-start
-						for n := 0; n < 200; n++ {
+						perGoroutine := 200
+						if cfg.g > 32 {
+							perGoroutine = 80
+						}
+						for n := 0; n < perGoroutine; n++ {
 							k := rng.Intn(len(ops))
 							// the first two operations of every goroutine are failing Responses: whatever
 							// the template sets up lazily for its error page is set up by all of them at once
